@@ -4,6 +4,9 @@ C05.a no conflation inherited from the shared front-end (injective opcode -> fun
 C05.b commutativity: flag derives from the EVM-commutative set; operand-swapped retry only under the flag
 C05.c the comparison covers every component: are_equals / compare_variables evaluate all parts before accepting
 C05.d totality: no raise / unguarded [0] on filter results in code reachable from verify_block_from_list_of_sfs
+C05.e a (verdict, reason) pair is never used as a truth value
+C05.f no name-equality shortcut around the structural comparison
+C05.g an unmatched dependence is decided, never skipped
 """
 import ast
 
